@@ -56,6 +56,22 @@ add('C09',
     'Lean 4 proof over a model regenerated from the source (translator) + kernel-checked table + differential correspondence of the formatter + static SQL checker oracle',
     'DESIGN.md section 5 C09')
 
+add('C06',
+    'Lean 4 theorems on independent transcriptions of the two scanners every parsing function is built on (parse.py Traverse with its index jumps; logica_parse.cpp Traverser::Next, which keeps pending yields as \\x01 markers on its state stack, reports end-of-line-in-string instead of the character and goes on after an unmatched bracket): for every string, RemoveComments - the first thing both ParseFile implementations apply to a file - returns the same comment-free text or raises the same error at the same index (remove_comments_agree_partial), by a simulation between related configurations (scanners_simulate). The rule trees built afterwards (2-3k lines of splitting, operators and rewrites on each side) are not modelled (partial): equality of the trees and of acceptance is decided by differential execution of the two real parsers (shared object rebuilt from the current source) on the integration-test programs, every statement form of docs/syntax.md, generated programs, layout-noise variants and 4 single-token corruptions of each. Tie of the model: every (idx, state, status) parse.Traverse yields and what RemoveComments returns, on program texts, their variants and random strings over the special characters, against the Lean driver; the C++ transcription through the scanner error the real C++ parser reports for the same file.',
+    'Trusted: Lean kernel + standard axioms; partial as stated; the C++ Traverser is not reachable through the C ABI, so its transcription is tied through ParseFile outcomes only; differential harness. Three defects repaired (empty array subscript, | adjacency, TOO_MUCH reset in C++).',
+    'Lean 4 proof (simulation of two state machines) + differential correspondence of the scanner model + differential execution of both parsers',
+    'DESIGN.md section 5 C06')
+add('C11',
+    'Lean 4 theorems on the bag semantics of propositions (environment -> list of extensions; conjunction = flatMap, disjunction = append, negation = no solution): ~P equals (Max{1 :- P} is null) under every environment; A => B, parsed as ~(A, ~B), holds exactly when every solution of A extends to a solution of B; x in [a, b] equals two alternatives (and in over any list the disjunction of its elements, with multiplicities); several rules equal one rule with |; disjunction distributes out of any context (the DNF rewrite) exactly on the right and as bags on the left. That the parser produces these long forms and the naming conventions (positional = colN, a: = a: a, F(x) = v, = vs ==, the three combine syntaxes, P(k) Op= e) are not theorems (partial): every occurrence of a shorthand in generated programs (heads, bodies, nested combines, negations, injected predicates) is rewritten into its long form at AST level and both programs are run on SQLite; multisets must be equal.',
+    'Trusted: Lean kernel + standard axioms; partial as stated: the Sugar combinators are the reading Sem.solveI gives to conj/disj/neg/in (tied through the Sem correspondence of C01/C02, not separately); printer of both forms; SQLite. Known finding: positional vs colN on an injected predicate.',
+    'Lean 4 proof (algebra of solution bags) + short-form/long-form oracle on SQLite',
+    'DESIGN.md section 5 C11')
+add('C15',
+    'Lean 4 theorems on the model of the scanner (parse.py Traverse) through which RemoveComments, IsWhole and SplitRaw see a text - its view: the characters yielded, each with its bracket/string state, and the error events, never positions (positions_irrelevant): scanning is compositional at positions whose preceding character does not trigger look-ahead (go_prefix); a /* */ comment inserted where the scanner is outside strings and comments leaves the view unchanged, a # comment before a newline likewise (block_comment_insertion_partial, line_comment_insertion_partial); every character of a string literal - brackets, separators, comment markers, keywords - is yielded in one non-empty state and the text after the literal is scanned as if it were not there (string_literal_opaque_partial): string content is never split on, never counted as a bracket, never starts a comment. Whitespace between tokens, redundant parentheses, trailing semicolons and spans act above the scanner and are not theorems (partial): generated programs and all statement forms x layout noise at token boundaries (blanks, newlines, # and /* */ comments with tricky content), parenthesised variants, trailing/empty statements must parse to identical rules under both real parsers; string statements must parse to exactly the intended string values; every span must be the literal text at its position. Tie of the model: as for C06.',
+    'Trusted: Lean kernel + standard axioms; partial as stated; tokenizer/noise inserter of the harness. Known finding: keyword separators need a literal blank.',
+    'Lean 4 proof (compositionality of the scanner, comment/string lemmas by induction) + differential correspondence of the scanner model + layout-noise oracle under both parsers',
+    'DESIGN.md section 5 C15')
+
 SEM_TIE = ('Tie and oracle: type-directed generated programs (AST for the Lean reference evaluator Sem.denote, text for the real pipeline) run on every check; rows and column names from the `logica.py run` SQLite path are compared as multisets with Sem.denote; ')
 
 add('C02',
